@@ -1,13 +1,19 @@
 (** C19  Interpreter instances are isolated from one another.
-    Property theorems only - PARTIAL. In the model the instances of a thread share two things:
-    the syntax table (it is a thread-local global in the code: known finding F5) and the address
-    space of the store. These theorems delimit the first channel and give each instance a root
-    frame of its own; that evaluation through one instance never writes a frame reachable only from
-    another (the region invariant) is not proved here - it is checked by the correspondence, which
-    compares B interleaved with A against B alone. *)
+    Property theorems only. In the model the instances of a thread share two things: the syntax
+    table (it is a thread-local global in the code: known finding F5) and the address space of the
+    store. The first group of theorems delimits the first channel and gives each instance a root frame
+    of its own. The second group (Proofs/RegionProofs.v) is the region invariant for the second
+    channel: a region is a set of frames F and vectors V whose contents refer only to F and V
+    ([stok]); evaluation started inside a region writes nothing outside it, and two disjoint regions
+    stay disjoint and intact whichever of them evaluates - an invariant of every interleaving.
+    Not proved: that what instance B READS is determined by its region alone up to a renaming of
+    addresses (allocation indices depend on how much the other instance has allocated); that half is
+    covered by the correspondence check, which compares B interleaved with A against B alone; and the
+    loader (imports) is covered by C19_import_keeps_instance and the check, not by the region theorem. *)
 From Coq Require Import List.
 From RV Require Import Model.Common Model.Ast Model.Value Model.Reader Model.Interp
-  Proofs.ImportProofs Proofs.LoaderProofs Proofs.WorldProofs.
+  Model.Eval Spec.EvalSpec Proofs.ImportProofs Proofs.LoaderProofs Proofs.WorldProofs Proofs.EvalProofs
+  Proofs.LibBoot Proofs.RegionProofs Proofs.RegionBoot.
 Import ListNotations.
 
 (** reading and transforming a form changes nothing but (possibly) the syntax table *)
@@ -32,3 +38,45 @@ Proof. exact new_instance_fresh_root. Qed.
 Theorem C19_import_keeps_instance : forall fs cwd fuel efuel sets env c r c',
   eval_import fs cwd fuel efuel sets env c = (r, c') -> keeps c c'.
 Proof. exact import_keeps_instance. Qed.
+
+(** * the region invariant *)
+
+(** evaluation started inside a region (env in F, everything stored in F and V refers only to F and V)
+    leaves every frame and vector outside the region exactly as it was *)
+Theorem C19_outside_untouched : forall st env e r st' F V,
+  ev st env e r st' -> stok F V st -> F env -> untouched F V st st'.
+Proof. exact outside_untouched. Qed.
+
+Theorem C19_evaluator_outside_untouched : forall fuel e env st r st' F V,
+  eval_expr fuel e env st = (r, st') -> noF r -> stok F V st -> F env -> untouched F V st st'.
+Proof. exact eval_outside_untouched. Qed.
+
+(** two disjoint regions: whichever evaluates, both stay regions, stay disjoint, the other one's
+    frames and vectors are what they were, and the value produced belongs to the evaluating one *)
+Theorem C19_two_regions : forall st env e r st' F1 V1 F2 V2,
+  ev st env e r st' ->
+  stok F1 V1 st -> stok F2 V2 st -> disjoint F1 F2 -> disjoint V1 V2 -> F1 env ->
+  exists F1' V1',
+    stok F1' V1' st' /\ stok F2 V2 st' /\ disjoint F1' F2 /\ disjoint V1' V2 /\
+    incl_set F1 F1' /\ incl_set V1 V1' /\
+    (forall a, F2 a -> nth_error (frames st') a = nth_error (frames st) a) /\
+    (forall x, V2 x -> nth_error (vectors st') x = nth_error (vectors st) x) /\
+    (forall v, r = Ok v -> vok F1' V1' v).
+Proof. exact two_regions. Qed.
+
+(** a top-level definition of a value of the region keeps the region; the root frame of a new instance
+    is a region of its own, disjoint from every existing one, which stays intact *)
+Theorem C19_define_in_region : forall st env x v F V,
+  stok F V st -> F env -> vok F V v -> stok F V (env_define st env x v) /\ untouched F V st (env_define st env x v).
+Proof. exact define_in_region. Qed.
+
+Theorem C19_new_root_region : forall st F V,
+  stok F V st ->
+  let a := fst (alloc_frame st None) in let st' := snd (alloc_frame st None) in
+  stok (fun b => b = a) (fun _ => False) st' /\ disjoint F (fun b => b = a) /\ stok F V st'.
+Proof. exact new_root_region. Qed.
+
+(** not vacuous: the state after start-up (computed from the sources in /repo) is a region *)
+Theorem C19_boot_state_is_a_region : stok (all_frames boot_state) (all_vectors boot_state) boot_state /\
+  all_frames boot_state boot_root /\ 2 <= length (frames boot_state).
+Proof. exact boot_state_is_a_region. Qed.
